@@ -580,6 +580,7 @@ class Env:
         # a later, fault-free, much SHORTER write to the same destination(s): (call, {dest name: expected bytes})
         self.follow: Optional[Tuple[Callable[[], Any], Dict[str, bytes]]] = None
         self.suffixes: Tuple[str, ...] = ()
+        self.age = case.get("age")  # None: files as fresh as the set-up made them
         self.scope = case.get("scope", "atomic")  # which proxies record/inject: clematis.io.atomic only | process-wide
         self._env_saved = {k: os.environ.get(k) for k in ("CLEMATIS_LOG_DIR", "CLEMATIS_SNAPSHOT_DIR")}
         os.environ["CLEMATIS_SNAPSHOT_DIR"] = self.scratch("snapenv")
@@ -610,6 +611,23 @@ class Env:
             f.write(data)
         os.chmod(p, mode)
         self.initial[name] = (data, mode)
+        self._age_one(p, len(self.initial))
+
+    def _age_one(self, p: str, idx: int) -> None:
+        """Optional dimension `age` (seconds; "1980" = fixed epoch): the files the write finds are not from this
+        second but hours / days / years old (a previous session) — time-gated code paths see them as old."""
+        if self.age is None:
+            return
+        t = (315532800.0 if self.age == "1980" else _time_mod.time() - float(self.age)) + idx
+        os.utime(p, (t, t), follow_symlinks=False)
+
+    def age_all(self) -> None:
+        if self.age is None:
+            return
+        for k, n in enumerate(sorted(os.listdir(self.w))):
+            p = os.path.join(self.w, n)
+            if os.path.isfile(p) and not os.path.islink(p):
+                self._age_one(p, k)
 
     def seal(self) -> None:
         """Take the initial picture of `w` (after the target's set-up wrote bystanders through the real code)."""
@@ -688,6 +706,8 @@ def prepare(case: dict, base_dir: Optional[str] = FAST_TMP) -> Env:
             if old is not None:
                 env.put(name, old, perm)
             env.put("other.bin", b"bystander", 0o640)
+            env.put(name + ".bak", b"operator's backup copy", 0o600)  # durable sibling named '<dest>.<something>'
+            env.put(name + ".1", b"previous generation", 0o644)
             path = os.path.join(env.wdir, name)
             parg = pathlib.Path(path) if case.get("pathstyle") == "path" else path
             fn = {"bytes": A.atomic_write_bytes, "text": A.atomic_write_text, "json": A.atomic_write_json}[t]
@@ -763,6 +783,8 @@ def prepare(case: dict, base_dir: Optional[str] = FAST_TMP) -> Env:
                 old_body, _ = ref(old_spec, "r_old")
                 env.put(name, old_body, perm)
                 env.put(name + ".meta", OLD_SIDECAR, 0o644)
+            if t == "full":  # a compressed sibling of the same snapshot, kept by the operator
+                env.put(name + ".zst", b"\x28\xb5\x2f\xfd compressed sibling", 0o644)
             new_p = _payload(new_spec)
             env.call = lambda: S.write_snapshot_auto(env.wdir, etag_from="e1", etag_to="e2", payload=new_p, delta_mode=dmode,
                                                      compression=comp)
@@ -810,6 +832,7 @@ def prepare(case: dict, base_dir: Optional[str] = FAST_TMP) -> Env:
             env.suffixes = (".jsonl",)
         else:
             raise ValueError(f"unknown target {t!r}")
+        env.age_all()
         return env
     except BaseException:
         env.close()
@@ -1229,7 +1252,10 @@ def enumerate_case(case: dict, rec, on_violation: Optional[Callable[[Violation],
             rec.note(f"steps.{env.target}" + ("" if env.scope == "atomic" else "." + env.scope),
                      [op for op, _d, _p in base.steps])
         nsz = case["new"].get("size") if isinstance(case.get("new"), dict) else None
+        age = case.get("age")
         dims = [f"scope={env.scope}", f"pathstyle={case.get('pathstyle', 'str')}",
+                "age=" + ("fresh" if age is None else "years" if age == "1980" else "minutes" if age < 3600 else
+                          "hours" if age < 86400 else "days"),
                 "new-size=" + ("lit" if nsz is None else "0" if nsz == 0 else "<4K" if nsz < 4096 else "4K..8K" if nsz <= 8193
                                else "8K..64K" if nsz < 65_536 else "64K..1M" if nsz <= (1 << 20) else ">1M"),
                 f"umask={oct(case['umask']) if case.get('umask') is not None else 'inherited'}"]
@@ -1300,6 +1326,8 @@ def matrix(depth: str) -> List[dict]:
                     "pathstyle": ("str", "path", "rel")[(ti + ci) % 3]}
             if (ti + ci) % 2 == 0:
                 case["umask"] = 0o077 if ci % 2 == 0 else 0o027  # the writer's umask must not decide the result's mode
+            if ci % 3:  # the directory's files are hours / years old, not from this second
+                case["age"] = 3 * 3600 if ci % 3 == 1 else "1980"
             out.append(case)
     return out
 
@@ -1324,6 +1352,8 @@ def matrix_anywhere(depth: str) -> List[dict]:
                     "pathstyle": ("str", "rel", "path")[(ti + ci) % 3], "scope": "global"}
             if (ti + ci) % 2:
                 case["umask"] = 0o077
+            if (ti + ci) % 3 != 2:
+                case["age"] = (2 * 86400, "1980")[(ti + ci) % 3]
             out.append(case)
     return out
 
@@ -1433,6 +1463,9 @@ def _strategies():
             case["umask"] = um
         if draw(st.integers(0, 3)) == 0:
             case["scope"] = "global"
+        age = draw(st.sampled_from([None, 601, 5 * 3600, 30 * 86400, "1980"]))
+        if age is not None:
+            case["age"] = age
         return case
 
     return cases()
@@ -1528,6 +1561,8 @@ def sub_rlimit(rec, seed, shard, nshards, targets=("bytes", "text", "json", "sna
         for si, size in enumerate(sizes):
             case = {"target": t, "old": _g(600, 41 + ti, "ascii") if (ti + si) % 2 else None,
                     "new": _g(size, 51 + ti + si, "binary" if t == "bytes" else "ascii"), "perm": 0o644, "pathstyle": "str"}
+            if si % 2:
+                case["age"] = 86400 * (1 + si)
             # size 0: an EMPTY new content, written without any limit in the way (the replacement must still happen)
             limits = (-1, -700, -5000, -(size // 2)) if size else (1 << 40,)
             if not _rlimit_group(case, limits, rec, k, shard, nshards):
@@ -1957,7 +1992,7 @@ def writers_case(case: dict, rec) -> None:
     in the directory changed and no temp file is left."""
     t = case["target"]
     ea = prepare({"target": t, "old": case.get("old"), "new": case["a"], "perm": 0o644, "pathstyle": "str",
-                  "scope": "global"})
+                  "scope": "global", "age": case.get("age")})
     try:
         eb = prepare({"target": t, "old": None, "new": case["b"], "perm": 0o644, "pathstyle": "str"})
         try:
@@ -2044,7 +2079,7 @@ def sub_writers(rec, seed, shard, nshards, targets=("bytes", "snapshot", "jsonl"
             if k % nshards != shard:
                 continue
             case = {"target": t, "old": _g(333, so, style), "a": _g(sizes[0], sa, style), "b": _g(sizes[1], sb, style),
-                    "pause": None}
+                    "pause": None, "age": 7200 if sizes[0] < sizes[1] else None}
             try:
                 writers_case(case, rec)
             except Violation as v:
